@@ -1,5 +1,5 @@
 (** Boolean comparators evaluated by the correspondence check of C20 (command line). *)
-From Rocfl Require Import Base.Bytes Model.Cli Model.KnownC20.
+From Rocfl Require Import Base.Bytes Model.Cli.
 Open Scope N_scope.
 
 (** decidable equality of dispatch results (transparent, so that vm_compute decides it) *)
@@ -11,18 +11,9 @@ Proof. repeat decide equality. Defined.
 Definition check_argv (g : globals) (s : subcmd) (expected : dispatch) : bool :=
   if dispatch_eq_dec (argv_to_call g s) expected then true else false.
 
-(** exit status predicted from the LIBRARY's outcome vs the status of the binary.
-    [pinned = true]: the code as pinned (validate.rs:144 as written);
-    [pinned = false]: after the repair of the known finding. *)
-Definition model_exit (pinned : bool) (c : cmd_outcome) : N :=
-  match c with
-  | OValidateRepo f (Some rr) =>
-      if pinned then validate_repo_exit f rr else validate_repo_exit_fixed f rr
-  | _ => cli_exit c
-  end.
-
-Definition check_exit (pinned : bool) (c : cmd_outcome) (observed : N) : bool :=
-  model_exit pinned c =? observed.
+(** exit status predicted from the LIBRARY's outcome vs the status of the binary *)
+Definition check_exit (c : cmd_outcome) (observed : N) : bool :=
+  cli_exit c =? observed.
 
 (** number of "Object .. is .." blocks validate prints (None: not a validate outcome) *)
 Definition model_printed (c : cmd_outcome) : option N :=
@@ -38,10 +29,42 @@ Definition check_printed (c : cmd_outcome) (observed : option N) : bool :=
   | _, _ => true
   end.
 
-(** one invocation: (options ok, exit status ok for the pinned code, exit status ok for the
-    repaired code, printed blocks ok, in the known class) *)
+(** What `validate` (repository mode) wrote about the storage itself, as parsed from stdout:
+    the codes listed in the "Storage root is .." block and in the "Storage hierarchy is .."
+    block (None: block absent), and the number on the "Storage issues:" line. *)
+Record storage_out := mkSO {
+  so_root : option (list N * list N);
+  so_hier : option (list N * list N);
+  so_issues : N
+}.
+
+Fixpoint listN_eqb (a c : list N) : bool :=
+  match a, c with
+  | [], [] => true
+  | x :: a', y :: c' => (x =? y) && listN_eqb a' c'
+  | _, _ => false
+  end.
+
+Definition block_eqb (a c : option (list N * list N)) : bool :=
+  match a, c with
+  | None, None => true
+  | Some (e1, w1), Some (e2, w2) => listN_eqb e1 e2 && listN_eqb w1 w2
+  | _, _ => false
+  end.
+
+Definition check_storage (c : cmd_outcome) (observed : option storage_out) : bool :=
+  match c, observed with
+  | OValidateRepo f (Some rr), Some so =>
+      block_eqb (validate_repo_root_block f rr) (so_root so)
+      && block_eqb (validate_repo_hier_block f rr) (so_hier so)
+      && (validate_repo_storage_issues f rr =? so_issues so)
+  | _, _ => true
+  end.
+
+(** one invocation: (options ok, exit status ok, printed object blocks ok, storage blocks ok) *)
 Definition check_step (g : globals) (s : subcmd) (expected : dispatch)
            (c : cmd_outcome) (observed_exit : N) (observed_printed : option N)
-  : bool * bool * bool * bool * bool :=
-  (check_argv g s expected, check_exit true c observed_exit, check_exit false c observed_exit,
-   check_printed c observed_printed, c20_known c).
+           (observed_storage : option storage_out)
+  : bool * bool * bool * bool :=
+  (check_argv g s expected, check_exit c observed_exit,
+   check_printed c observed_printed, check_storage c observed_storage).
